@@ -338,7 +338,9 @@ func enumLong(shard, shards int, tier string, yield func(Long) bool) {
 			return
 		}
 		base := LongStr{N: n, Pat: "ab"}
-		edit := func(pos int, b byte) LongStr { return LongStr{N: n, Pat: "ab", Edits: []Spot{{Pos: pos, Bits: uint64(b)}}} }
+		edit := func(pos int, b byte) LongStr {
+			return LongStr{N: n, Pat: "ab", Edits: []Spot{{Pos: pos, Bits: uint64(b)}}}
+		}
 		vars := []LongStr{
 			base,
 			edit(n-1, 'z'),
@@ -352,6 +354,9 @@ func enumLong(shard, shards int, tier string, yield func(Long) bool) {
 		}
 		for _, tn := range []string{"string", "methString"} {
 			for _, fn := range []string{"Compare", "Less", "Min", "Max"} {
+				if tn == "methString" && fn != "Compare" && fn != "Min" {
+					continue
+				}
 				for _, a := range vars {
 					for _, b := range vars {
 						emit(Long{Fn: fn, Type: tn, N: 2, SPat: []LongStr{a, b}})
